@@ -1,5 +1,6 @@
 import HcipyVerif.Lemmas.OpIR
 import HcipyVerif.Lemmas.Effects
+import HcipyVerif.Lemmas.EffectLoops
 import HcipyVerif.Model.Elements
 import Mathlib.Data.Complex.Basic
 import Mathlib.Algebra.Order.Field.Rat
@@ -27,7 +28,8 @@ Three models, tied to the code by harness/props/c06.py:
   are heap objects of their own (`viewProg`, `safeAttr`, `safe_sound_attr`): several wavefronts may
   point to one grid, and an in-place update through any of them is rejected
   (`scaleSharedGridOld_*`, `copy_shares_grid_unsafe`, `stokesInplaceOld_*`).  Every shipped effect
-  program is accepted on all three heaps (`shipped_programs_safeAll`); the pinned tree's
+  program is accepted on all three heaps (`shipped_programs_safeAll`), the programs with a loop
+  over scales / layers for every number of rounds (`shipped_loop_programs_safeAll`); the pinned tree's
   `VectorVortexCoronagraph.backward` is rejected and provably leaves `wavelength = 1`
   (`vvcBwdScalarOld_clobbers_wavelength`).  The driver op `C06 effects` runs `call` and the
   checkers; the harness compares identity / sharing of the result, the ordered trace of what is done
@@ -37,8 +39,8 @@ Three models, tied to the code by harness/props/c06.py:
   histories and its hit / miss predictions are compared with observed recomputations.
 
 Not modelled: hash collisions of the instance cache (C05), the Python object model beyond the
-instruction set of `Effects.Instr`, rounding.  The programs with a loop over scales / layers are
-written for one round of the loop; `chain` stands for compositions of arbitrary parts.
+instruction set of `Effects.Instr`, rounding.  `chain` stands for compositions of arbitrary parts
+(no frame theorem for sequential composition of calls).
 -/
 set_option linter.unusedSimpArgs false
 set_option linter.unusedVariables false
@@ -412,7 +414,7 @@ theorem scaleSharedGridOld_unsafe : safeAttr .grid scaleSharedGridOld = false :=
 /-- … and the caller's grid is indeed rewritten. -/
 theorem scaleSharedGridOld_rewrites_grid (sem : Nat → List Int → Int) (v : InVal) (g : Int) :
     attrContentsAfter sem .grid scaleSharedGridOld v g = some (sem opMul [g]) := by
-  simp [attrContentsAfter, viewProg, viewInstr, scaleSharedGridOld, call, exec, step, init, upd, bufOf, contents, InVal.obj]
+  simp [attrContentsAfter, viewProg, viewList, viewInstr, scaleSharedGridOld, call, exec, step, init, upd, bufOf, contents, InVal.obj]
 
 /-- `wavefront.copy()` does **not** help: the copy points to the same grid object
 (`Field.__array_finalize__`), so rescaling the copy's grid in place is rejected as well … -/
@@ -424,11 +426,45 @@ example : safeAttr .grid ⟨[.copy 1 0, .copyAttr 1 .grid, .inplaceAttr opMul 1 
 theorem stokesInplaceOld_unsafe : safeAttr .stokes stokesInplaceOld = false := by decide
 theorem stokesInplaceOld_rewrites_stokes (sem : Nat → List Int → Int) (v : InVal) (st : Int) :
     attrContentsAfter sem .stokes stokesInplaceOld v st = some (sem opMul [st]) := by
-  simp [attrContentsAfter, viewProg, viewInstr, stokesInplaceOld, call, exec, step, init, upd, bufOf, contents, InVal.obj]
+  simp [attrContentsAfter, viewProg, viewList, viewInstr, stokesInplaceOld, call, exec, step, init, upd, bufOf, contents, InVal.obj]
 
 /-- A new wavefront gets a *copy* of the Stokes vector (`np.array(…)` in `Wavefront.__init__`), so
 updating the result's Stokes vector in place is harmless — unlike the grid. -/
 example : safeAttr .stokes ⟨[.newFrom 1 opJones [0] 0, .inplaceAttr opMul 1 .stokes], 1⟩ = true := by decide
+
+/-! ### Loops: any number of scales / layers
+
+`LoopProg.unroll n` is the program with `n` rounds of its loop body (`Model/Elements.lean:
+loopPrograms` — the multi-scale coronagraphs, the vector vortex coronagraph in all its variants, the
+layered atmosphere).  The driver op `C06 effects-loop NAME N` runs the unrolling for the number of
+rounds of the element at hand; the harness compares the object trace and the number of wavefronts
+created exactly. -/
+
+/-- **Every shipped program with a loop is accepted on all three heaps for every number of rounds.**
+(`loop_safeAll`: accepted with zero and one round, and the checker's state after one round is a
+fixpoint of the loop body.) -/
+theorem shipped_loop_programs_safeAll :
+    ∀ np ∈ loopPrograms, ∀ n : Nat, safeAll (np.2.unroll n) = true :=
+  fun np h n => loop_safeAll np.2 (loopPrograms_base np h) (loopPrograms_fix np h) n
+
+/-- Hence, whatever the number of scales / layers: field, attributes, grid contents and Stokes
+contents of the caller's wavefront are intact. -/
+theorem loop_programs_input_intact (sem : Nat → List Int → Int) (np : String × LoopProg) (h : np ∈ loopPrograms)
+    (n : Nat) (v : InVal) (g st : Int) :
+    (call sem (np.2.unroll n) v).inputField = v.field ∧ (call sem (np.2.unroll n) v).inputObj = v.obj ∧
+      attrContentsAfter sem .grid (np.2.unroll n) v g = some g ∧
+      attrContentsAfter sem .stokes (np.2.unroll n) v st = some st :=
+  safeAll_sound sem _ (shipped_loop_programs_safeAll np h n) v g st
+
+example : (multiscaleFwdL.unroll 3).body.length = 17 := by decide
+
+/-- One accepted round is not enough — the fixpoint condition matters: a loop that rebinds its
+working name to the argument at the end of the round is accepted with one round and rejected with two
+(the second round multiplies the caller's field in place). -/
+theorem rebinding_loop_one_round_safe :
+    safe (LoopProg.unroll ⟨[.copy 1 0], [.inplace opMul 1 [], .bind 1 0], [], 1⟩ 1) = true := by decide
+theorem rebinding_loop_two_rounds_unsafe :
+    safe (LoopProg.unroll ⟨[.copy 1 0], [.inplace opMul 1 [], .bind 1 0], [], 1⟩ 2) = false := by decide
 
 /-- The checker is not vacuous: dropping the copy before an in-place multiply is rejected … -/
 theorem dropped_copy_unsafe : safe ⟨[.inplace opMul 0 []], 0⟩ = false := by decide
